@@ -7,6 +7,8 @@ Property theorems on the ATOMIC-STEP model (Model/C13.lean, on top of C08's mode
   C13_flush_completion_safe   a background completion, whenever and with whatever it arrives, leaves the
                               abstract state untouched; it replaces exactly under the guards
   C13_handoff_immutable       copy-on-write: a buffer handed to PutB is never written afterwards
+  C13_handoff_immutable_rt    the same for the model compared with the real memSegment (any runtime
+                              capacity), plus: a written / grown segment shares no array with a hand-off
   C13_linearizable            every interleaving is the sequential history in that order
   C13_saved_manifest          a save at any point returns the contents at that point of the history
   C13_lock_order              hierarchical locking: no wait-for cycle; Rename / Flush obey the rule
@@ -22,6 +24,7 @@ import ArvVerif.Proofs.C13_Hist
 import ArvVerif.Proofs.C13_Cow
 import ArvVerif.Proofs.C13_Lock
 import ArvVerif.Proofs.C13_RW
+import ArvVerif.Proofs.C13_CowRt
 namespace ArvVerif.C13
 open ArvVerif.C08
 
@@ -107,6 +110,35 @@ theorem C13_handoff_immutable (ops : List Cow.Op) {st st' : Cow.State} (hinv : C
     (∀ sh ∈ st'.shared, ((st'.heap[sh.ptr]?).getD []).take sh.len = sh.snap) ∧ Cow.Inv st' := by
   obtain ⟨h1, h2⟩ := Cow.run_inv ops hinv hrun
   exact ⟨h2, h1.intact, h1⟩
+
+/-- **Copy-on-write, whatever capacity the runtime picks.** The heap model the `cow` correspondence
+run compares with the real memSegment (`Cow.stepRt acap`: the copy made by WriteAt on a shared buffer
+gets capacity `acap len`, everything else as in `Cow.step`), for EVERY `acap`: from the driver's
+initial state (one empty segment) or any state satisfying the invariant, after any operation
+sequence every handed-off buffer still holds its bytes; and — the aliasing rule of the `cow` oracle —
+right after a WriteAt, or a Truncate that grows the segment, that segment has `flushing == nil` and
+shares its array with no handed-off buffer. -/
+theorem C13_handoff_immutable_rt (acap : Nat → Nat) :
+    Cow.Inv Cow.initRt ∧
+    (∀ (ops : List Cow.Op) (st st' : Cow.State), Cow.Inv st → Cow.runRt acap st ops = some st' →
+      Cow.Inv st' ∧ (∀ sh ∈ st.shared, sh ∈ st'.shared) ∧
+      ∀ sh ∈ st'.shared, ((st'.heap[sh.ptr]?).getD []).take sh.len = sh.snap) ∧
+    (∀ (st st' : Cow.State) (i off : Nat) (p : Bytes), Cow.Inv st → Cow.stepRt acap st (Cow.Op.writeAt i p off) = some st' →
+      ∃ sg', st'.segs[i]? = some sg' ∧ sg'.flushing = none ∧ ∀ sh ∈ st'.shared, sh.ptr ≠ sg'.ptr) ∧
+    (∀ (st st' : Cow.State) (i n : Nat) (sg : Cow.MSeg), Cow.Inv st → st.segs[i]? = some sg → sg.len < n →
+      Cow.stepRt acap st (Cow.Op.truncate i n) = some st' →
+      ∃ sg', st'.segs[i]? = some sg' ∧ sg'.flushing = none ∧ sg'.len = n ∧ ∀ sh ∈ st'.shared, sh.ptr ≠ sg'.ptr) :=
+  ⟨Cow.initRt_inv,
+   fun ops _ _ hinv hrun => let h := Cow.runRt_inv acap ops hinv hrun; ⟨h.1, h.2, h.1.intact⟩,
+   fun _ _ _ _ _ hinv h => Cow.writeAt_unshared acap hinv h,
+   fun _ _ _ _ _ hinv hi hg h => Cow.truncate_grow_unshared acap hinv hi hg h⟩
+
+/-- non-vacuity: hand-off, overwrite (copy with a rounded-up capacity 8), grow within that capacity
+(in place: the heap keeps 2 allocations), the handed-off bytes stay -/
+example : ((Cow.runRt (fun _ => 8) ⟨[[1, 2, 3, 0]], [⟨0, 3, 4, none⟩], []⟩
+      [Cow.Op.handOff 0 0, Cow.Op.writeAt 0 [7] 1, Cow.Op.truncate 0 5]).map
+      (fun st => (st.segs, st.shared.map (·.snap), st.heap))) =
+    some ([⟨1, 5, 8, none⟩], [[1, 2, 3]], [[1, 2, 3, 0], [1, 7, 3, 0, 0, 0, 0, 0]]) := by decide
 
 /-- the empty heap satisfies the copy-on-write invariant -/
 theorem C13_cow_init : Cow.Inv ⟨[], [], []⟩ :=
